@@ -1,5 +1,6 @@
 import Uhppote.Model.Order
 import Uhppote.Spec.Order
+import Uhppote.Gen.Order
 /-! # C16 — date and time comparisons form a strict total order consistent with the calendar
 All statements are for ALL integer field values (so certainly for years 0001..9999, months, days,
 hours 0..24, minutes 0..59). -/
@@ -86,6 +87,17 @@ theorem C16_segment_guard (s e : HM) : segmentRejected s e = false ↔ ¬ lex2 (
   unfold segmentRejected
   rw [← C16_hhmm_before_lex]
   simp
+
+/-- the comparison functions all theorems above are about are, term for term, the ones translated from
+    types/date.go, types/HHmm.go and types/datetime.go on this run (nested ifs with fall-through, the HHmm
+    case of the type switch, whole seconds by truncating division) -/
+theorem C16_regenerated :
+    Gen.Order.dateBefore = dateBefore ∧ Gen.Order.dateAfter = dateAfter ∧ Gen.Order.dateEquals = dateEquals ∧
+    Gen.Order.hhmmBefore = hhmmBefore ∧ Gen.Order.hhmmAfter = hhmmAfter ∧ Gen.Order.hhmmEquals = hhmmEquals ∧
+    Gen.Order.dateTimeBefore = dateTimeBefore := by
+  refine ⟨rfl, rfl, rfl, rfl, rfl, rfl, ?_⟩
+  funext a b
+  simp [Gen.Order.dateTimeBefore, dateTimeBefore]
 
 /-! non-vacuity -/
 example : dateBefore ⟨2024, 12, 31⟩ ⟨2025, 1, 1⟩ = true := by decide
